@@ -89,11 +89,35 @@ def _union_through_newtype(a: dict) -> bool:
 
 def classify_ref(a: dict) -> str:
     """'child' | 'property' | 'rejected' | 'child|rejected' (unspecified corner, never a property)"""
-    a = erase_annotated(a)
+    a = collapse_unions(erase_annotated(a))
     v = _classify(a)
     if v == "child" and _union_through_newtype(a):
         return "child|rejected"
     return v
+
+
+def collapse_unions(a: Any) -> Any:
+    """what typing makes of a union before anybody sees it: equal members are one member, and a union of one
+    member is that member (`Union[tuple[X, ...], tuple[X, ...]]` *is* `tuple[X, ...]`, `int | int` is `int`)"""
+    import json as _json
+
+    if isinstance(a, list):
+        return [collapse_unions(x) for x in a]
+    if not isinstance(a, dict):
+        return a
+    out = {k: (collapse_unions(v) if k == "of" else v) for k, v in a.items()}
+    if out.get("k") == "union":
+        seen: list[str] = []
+        members = []
+        for m in out["of"]:
+            key = _json.dumps({k: v for k, v in m.items() if k != "pipe"} if isinstance(m, dict) else m, sort_keys=True)
+            if key not in seen:
+                seen.append(key)
+                members.append(m)
+        if len(members) == 1:
+            return members[0]
+        out["of"] = members
+    return out
 
 
 def _classify(a: dict) -> str:
@@ -112,8 +136,14 @@ def _classify(a: dict) -> str:
 
 
 def is_collection_shape(a: dict) -> bool:
-    """outermost constructor (NewTypes looked through) is a tuple: default () instead of None"""
-    return strip_newtype(a)["k"] in ("tuple_var", "tuple_fix", "tuple_bare")
+    """outermost constructor (NewTypes / Annotated looked through) is a tuple, or a union all of whose members
+    are (typing collapses `Union[tuple[X, ...], tuple[X, ...]]` into the tuple): default () instead of None"""
+    a = strip_newtype(a)
+    if a["k"] == "annotated":
+        return is_collection_shape(a["of"])
+    if a["k"] == "union":
+        return all(is_collection_shape(m) for m in a["of"])
+    return a["k"] in ("tuple_var", "tuple_fix", "tuple_bare")
 
 
 # ----------------------------------------------------------------------------- rendering
